@@ -15,7 +15,7 @@ from pyvc import solve, libattr, textform
 from pyvc.report import native
 from pyvc.values import *  # noqa
 from checks.c12 import arbitrary_kevent
-from checks.decoder_checks import toks_equal_under
+from checks.decoder_checks import toks_equal_under, sym_names
 
 MOD = 'pykdebugparser.pykdebugparser'
 I = z3.IntSort()
@@ -48,8 +48,8 @@ def alts_of(it, ctx, text):
     return out
 
 
-def compose_check(run, tier, fname, switch_names, make_arg, body_always, prefix):
-    """tokens(setting) == concat of tokens(single column settings), for every setting"""
+def compose_check(run, tier, fname, switch_names, make_arg, body_always, prefix, foreign=(), foreign_what=''):
+    """tokens(setting) == concat of tokens(single column settings), for every setting; no column reads a `foreign` symbol"""
     fq = '%s:PyKdebugParser.%s' % (MOD, fname)
     sess = Session()
     it = sess.it
@@ -89,6 +89,15 @@ def compose_check(run, tier, fname, switch_names, make_arg, body_always, prefix)
             run.add(ob, 'unsupported', '', 0, fq, str(ex))
             run.pending_failures.append((ob, 'unsupported', str(ex)))
             continue
+        if foreign:
+            bad = sorted(set(nm for pc, alts in comp for conds, toks in alts for tk in toks for t in textform.token_terms(tk)
+                             for nm in sym_names(t) if nm.startswith(tuple(foreign)) and '.has.' not in nm))
+            ob2 = '%s/columns-read-only-the-emitting-record-and-the-tables.%s' % (prefix, name)
+            if bad:
+                run.add(ob2, 'refuted', 'token structure', 0, fq, 'a column shows %s (%s)' % (foreign_what, ', '.join(bad)))
+                run.pending_failures.append((ob2, 'refuted', 'a column shows %s (%s)' % (foreign_what, ', '.join(bad))))
+            else:
+                run.add(ob2, 'proved', 'token structure (no payload symbol in any column of any path)', 0, fq)
         ok, detail = compare_composite(comp, [singles[i] for i in range(n) if setting[i]], base)
         if ok:
             run.add(ob, 'proved', 'token structure + z3-5.1 (exhaustive over switch settings)', 0, fq)
@@ -302,8 +311,11 @@ def run_check(run, tier):
         e = arbitrary_kevent(sess, ctx, 'e')
         cls = ClassVal('AnyTrace', None, 'plain')
         cls.attrs['__str__'] = Builtin('trace.__str__', lambda it_, a, k, n: atom_str(z3.Int('trace.text')))
-        return [Obj(cls, {'ktraces': PList([e])})]
-    compose_check(run, tier, '_format_trace', ['show_timestamp', 'show_tid', 'show_process'], tr, True, 'C14/_format_trace')
+        o = Obj(cls, {'ktraces': PList([e])})
+        o.open_payload = 'payload'          # any decoded trace: its own fields (tid, pid, name, timestamp ...) are arbitrary
+        return [o]
+    compose_check(run, tier, '_format_trace', ['show_timestamp', 'show_tid', 'show_process'], tr, True, 'C14/_format_trace',
+                  foreign=('payload.',), foreign_what='a payload field of the trace')
 
     def cs(sess, ctx):
         cls = sess.module('pykdebugparser.callstacks_parser').ns['Callstack']
@@ -311,6 +323,11 @@ def run_check(run, tier):
     compose_check(run, tier, '_format_callstack', ['show_timestamp', 'show_tid', 'show_process'], cs, True, 'C14/_format_callstack')
     verify_format_process(run, tier)
     verify_process_tables(run, tier)
+    # "the process that the dump itself declares": the thread map of the file reaches the tables word for word (unsigned ids,
+    # the name up to its NUL) - the clauses of C02 / C03 that say so, discharged again under this property's name
+    from checks import c02, c03
+    c02.verify_parse_v2(run, tier, wf=True, prefix='C14/parse_v2', only=('threadmap.', '/supported', '/noraise'))
+    c03.verify_chunk_loops(run, tier, wf=True, prefix='C14/parse_v3', only=('threadmap.', '/supported', '/noraise'))
     out = native({'kind': 'color_search', 'seed': run.seed, 'budget': 60 if tier == 'quick' else 600}, timeout=600)
     run.bounded.append({'what': 'BOUNDED native stand-in for "colouring never changes the text"', 'lines_tried': out.get('tried'), 'found': bool(out.get('found'))})
     if out.get('found'):
